@@ -18,18 +18,21 @@ import (
 	"fmt"
 	"strings"
 	"sync"
+	"sync/atomic"
 
 	"verifharness/internal/core"
 )
 
 type cdcCodecCase struct {
-	P       cdcCparams  `json:"p"`
-	Shape   int         `json:"shape"`
-	Cmds    []cdcCcmd   `json:"cmds"`
-	Cont    []cdcCcmd   `json:"cont"`
-	Queries []cdcCquery `json:"queries"`
-	Junk    []byte      `json:"junk"`
-	Hung    bool        `json:"hung,omitempty"` // set by Exec when a read did not return: the case is not shrunk
+	P        cdcCparams  `json:"p"`
+	Shape    int         `json:"shape"`
+	Cmds     []cdcCcmd   `json:"cmds"`
+	Cont     []cdcCcmd   `json:"cont"`
+	Queries  []cdcCquery `json:"queries"`
+	Junk     []byte      `json:"junk"`
+	RSeed    uint64      `json:"rseed,omitempty"` // chooses the readers (codec_readers.go) the reloads go through
+	Hung     bool        `json:"hung,omitempty"`
+	NoShrink bool        `json:"noshrink,omitempty"` // set by Exec on the later ones of many visibly failing cases  // set by Exec when a read did not return: the case is not shrunk
 }
 
 // private driver instances used inside ExecF to obtain the model's canonical bytes
@@ -89,6 +92,51 @@ func cdcGenCodec(r *core.Rand, tier string) *cdcCodecCase {
 	}
 	var ids []uint32
 	c.Cmds, ids = cdcGenHistory(r, c.P, c.Shape, maxAdds)
+	hasText := c.P.Kind == "bm25" || (c.P.Kind == "hybrid" && c.P.Txt)
+	if hasText && r.Chance(0.012) {
+		// one document in which a term occurs more than 65535 times (counts beyond 16 bits)
+		w := cdcCodecWords[r.Intn(len(cdcCodecWords))]
+		c.Cmds = append(c.Cmds, cdcCcmd{Op: "add", ID: 7777, Text: strings.TrimSpace(strings.Repeat(w+" ", 65536+r.Range(1, 40)))})
+		ids = append(ids, 7777)
+	}
+	snap := cdcCcmd{Op: "snap"}
+	// intermediate snapshots: WriteTo in the middle of a history (then the history goes on:
+	// WriteTo -> mutate -> WriteTo), now and then twice in a row
+	if len(c.Cmds) > 0 && r.Chance(0.35) {
+		for k := r.Range(1, 2); k > 0; k-- {
+			at := r.Intn(len(c.Cmds) + 1)
+			ins := []cdcCcmd{snap}
+			if r.Chance(0.25) {
+				ins = append(ins, snap)
+			}
+			c.Cmds = append(c.Cmds[:at], append(ins, c.Cmds[at:]...)...)
+		}
+	}
+	// trainable kinds: a second (and third) Train on other data, WriteTo before and after each
+	if vk := c.P.vecKind(); (vk == "ivf" || vk == "pq" || vk == "ivfpq") && r.Chance(0.45) {
+		base := uint32(9000)
+		for k := r.Range(1, 2); k > 0; k-- {
+			if r.Chance(0.85) {
+				c.Cmds = append(c.Cmds, snap)
+			}
+			c.Cmds = append(c.Cmds, cdcCcmd{Op: "train", Seed: r.U64(), N: c.P.trainSize(r)})
+			if r.Chance(0.3) {
+				c.Cmds = append(c.Cmds, snap)
+			}
+			more, _ := cdcGenHistory(r, c.P, 1, 4)
+			for _, x := range more {
+				if x.Op == "add" {
+					x.ID = base
+					base++
+					ids = append(ids, x.ID)
+					c.Cmds = append(c.Cmds, x)
+				}
+			}
+			if len(ids) > 0 && r.Chance(0.4) {
+				c.Cmds = append(c.Cmds, cdcCcmd{Op: "remove", ID: ids[r.Intn(len(ids))]})
+			}
+		}
+	}
 	cont, ids2 := cdcGenHistory(r, c.P, 5, 6)
 	// continuation: no training (keeps centroids), fresh ids above the old ones
 	for _, x := range cont {
@@ -106,6 +154,7 @@ func cdcGenCodec(r *core.Rand, tier string) *cdcCodecCase {
 	}
 	_ = ids2
 	c.Queries = cdcGenQueries(r, c.P, append(ids, 5001, 5002, 5003, 5004, 5005, 5006, 5007, 5008), r.Range(2, 5))
+	c.RSeed = r.U64()
 	c.Junk = make([]byte, r.Range(1, 9))
 	for i := range c.Junk {
 		c.Junk[i] = byte(r.Intn(256))
@@ -115,7 +164,42 @@ func cdcGenCodec(r *core.Rand, tier string) *cdcCodecCase {
 
 func cdcHexOr(b []byte) string { return cdcHexB(b) }
 
+// cdcFailSeen counts the executions in which the harness itself saw a failure (a reload
+// that was rejected, crashed or hung, a reloaded state that differs from its source). When
+// a change of the code makes most cases fail, shrinking every one of them — hundreds of
+// re-executions each — costs the run its time limit although only the first 20 violations
+// are kept: from the 25th visibly failing execution on the cases are reported unshrunk.
+var cdcFailSeen atomic.Int64
+
+func cdcVisiblyFailing(lines []string) bool {
+	var ref = map[string]string{}
+	for _, l := range lines {
+		switch {
+		case strings.HasPrefix(l, "op panic"), strings.HasSuffix(l, "=> err"), strings.HasSuffix(l, "=> hang"):
+			return true
+		case strings.HasPrefix(l, "op state "):
+			f := strings.SplitN(l, " ", 5) // op state <label> <phase> => …
+			if len(f) == 5 {
+				if r, ok := ref[f[2]]; ok && r != f[4] {
+					return true
+				} else if !ok {
+					ref[f[2]] = f[4]
+				}
+			}
+		}
+	}
+	return false
+}
+
 func cdcExecCodec(c *cdcCodecCase) []string {
+	lines := cdcExecCodecInner(c)
+	if cdcVisiblyFailing(lines) && cdcFailSeen.Add(1) > 25 {
+		c.NoShrink = true
+	}
+	return lines
+}
+
+func cdcExecCodecInner(c *cdcCodecCase) []string {
 	src, err := cdcNewAnyIndex(c.P)
 	if err != nil {
 		return []string{"begin codec " + c.P.Kind, "op panic constructor: " + err.Error(), "end"}
@@ -127,7 +211,23 @@ func cdcExecCodec(c *cdcCodecCase) []string {
 	// hybrid bookkeeping derived from the history alone (no look at the index): which
 	// modalities each id was stored with, and which the docInfo entry of its LAST add names
 	stored, info := map[uint32][3]bool{}, map[uint32][3]bool{}
+	nread := 0 // number of reloads so far: each goes through another reader
+	nsnap := 0
 	for _, cmd := range c.Cmds {
+		if cmd.Op == "snap" {
+			// an intermediate WriteTo (it flushes the source, like any WriteTo): the stream is
+			// judged like the final one, reloaded through a chunking reader and the reloaded
+			// index compared (exported state, answers) with its source AT THIS MOMENT
+			if nsnap < 6 {
+				sl, ok := cdcSnapshot(c, src, nsnap, &nread)
+				lines = append(lines, sl...)
+				if !ok {
+					return append(lines, "end")
+				}
+				nsnap++
+			}
+			continue
+		}
 		out := src.apply(cmd)
 		if c.P.Kind == "hybrid" && out == "ok" {
 			switch cmd.Op {
@@ -194,15 +294,16 @@ func cdcExecCodec(c *cdcCodecCase) []string {
 	for i, q := range c.Queries {
 		lines = append(lines, fmt.Sprintf("op q q%d after => %s", i, src.query(q)))
 	}
-	// writing again yields the same bytes (WriteTo leaves nothing but a flush behind);
-	// map-ordered kinds may permute entries, so compare through the model's canonical form
+	// writing again, with no change in between, yields the same stream: byte-identical for
+	// the kinds without Go maps, equal up to map order (judged by the driver through the
+	// model's canonical form) for the others
 	stream2, _, _, err2 := src.writeTo()
 	if err2 != nil {
 		lines = append(lines, "op panic second WriteTo failed: "+err2.Error())
 	} else {
-		lines = append(lines, fmt.Sprintf("op eq rewrite-len => %d", len(stream2)))
-		lines = append(lines, fmt.Sprintf("op eq rewrite-len => %d", len(stream)))
+		lines = append(lines, fmt.Sprintf("op rewrite %s => identical=%s", cdcHexB(stream2), cdcB01(bytes.Equal(stream, stream2))))
 	}
+	bounds, pieces := src.bounds, src.pieces
 
 	// reload: ReadFrom(stream ++ junk) into a fresh index of the same parameters
 	rel, err := cdcNewAnyIndex(c.P)
@@ -213,19 +314,29 @@ func cdcExecCodec(c *cdcCodecCase) []string {
 	// pre-flight in a guarded child process: a ReadFrom that does not return on its own
 	// stream must cost the deadline once, not the run (the in-process reads below would spin)
 	withJunk := append(append([]byte(nil), stream...), c.Junk...)
+	mode := int((c.RSeed + uint64(nread)) % uint64(len(cdcReaderModes)))
+	nread++
 	guard := &cdcGuard{}
-	o, _ := guard.read(c.P, withJunk)
+	o, omsg := guard.readVia(c.P, withJunk, mode, c.RSeed, bounds, pieces)
 	guard.close()
 	if o == 'h' {
 		c.Hung = true
 		return append(lines, fmt.Sprintf("op junk %d => hang", len(c.Junk)), "end")
 	}
-	rd := bytes.NewReader(withJunk)
-	n, err := rel.readFrom(rd)
+	if o == 'p' {
+		// panic or crash (e.g. out of memory) of ReadFrom on its own stream: do not repeat it in-process
+		return append(lines, fmt.Sprintf("op panic ReadFrom of its own stream through reader %s: %s", cdcReaderModes[mode], omsg), "end")
+	}
+	rd := cdcWrapReader(mode, c.RSeed, withJunk, bounds, pieces)
+	var n int64
+	err = fmt.Errorf("rejected in the pre-flight")
+	if o == 'o' { // a rejected read is not repeated in-process (it may have mis-read lengths)
+		n, err = rel.readFrom(rd)
+	}
 	if err != nil {
-		lines = append(lines, fmt.Sprintf("op junk %d => err", len(c.Junk)))
+		lines = append(lines, fmt.Sprintf("op junk %d %s => err", len(c.Junk), cdcReaderModes[mode]))
 	} else {
-		lines = append(lines, fmt.Sprintf("op junk %d => %d %d", len(c.Junk), n, rd.Len()))
+		lines = append(lines, fmt.Sprintf("op junk %d %s => %d %d", len(c.Junk), cdcReaderModes[mode], n, len(withJunk)-rd.n))
 		lines = append(lines, "op content "+strings.Join(rel.content(), " "))
 		// the complete exported state of the reloaded index against the source's, field by
 		// field (implementation against implementation, exact)
@@ -243,7 +354,24 @@ func cdcExecCodec(c *cdcCodecCase) []string {
 		cidx, err = cdcNewAnyIndex(c.P)
 		if err == nil {
 			defer cidx.close()
-			n, rerr := cidx.readFrom(bytes.NewReader(canon))
+			cmode := int((c.RSeed + uint64(nread)) % uint64(len(cdcReaderModes)))
+			nread++
+			// pre-flight in the guarded child (a ReadFrom that mis-reads lengths may ask for gigabytes)
+			g2 := &cdcGuard{}
+			o2, o2msg := g2.readVia(c.P, canon, cmode, c.RSeed+1, nil, nil)
+			g2.close()
+			if o2 == 'h' {
+				c.Hung = true
+				return append(lines, "op junk 0 => hang", "end")
+			}
+			if o2 == 'p' {
+				return append(lines, fmt.Sprintf("op panic ReadFrom of the model's canonical stream through reader %s: %s", cdcReaderModes[cmode], o2msg), "end")
+			}
+			var n int64
+			rerr := fmt.Errorf("rejected in the pre-flight")
+			if o2 == 'o' {
+				n, rerr = cidx.readFrom(cdcWrapReader(cmode, c.RSeed+1, canon, nil, nil))
+			}
 			if rerr != nil {
 				lines = append(lines, fmt.Sprintf("op canonload %s - => err", cdcHexB(canon)))
 				cidx = nil
@@ -302,6 +430,65 @@ func cdcExecCodec(c *cdcCodecCase) []string {
 	return append(lines, "end")
 }
 
+// cdcSnapshot performs an intermediate WriteTo of src and checks it like the final one
+// (without the model-bytes pass): stream judged by the driver, second WriteTo in a row,
+// reload through a chunking reader with junk behind, exported state and answers of the
+// reloaded index against the source at this moment.  ok=false ends the case.
+func cdcSnapshot(c *cdcCodecCase, src *cdcAnyIndex, k int, nread *int) (lines []string, ok bool) {
+	stream, _, count, err := src.writeTo()
+	if err != nil {
+		return []string{"op panic WriteTo failed: " + err.Error()}, false
+	}
+	bounds, pieces := src.bounds, src.pieces
+	cnt := fmt.Sprint(count)
+	if count < 0 {
+		cnt = "-"
+	}
+	lines = append(lines, fmt.Sprintf("op write %s %s => ok", cdcHexB(stream), cnt))
+	lines = append(lines, "op content "+strings.Join(src.content(), " "))
+	if stream2, _, _, err2 := src.writeTo(); err2 != nil {
+		lines = append(lines, "op panic second WriteTo failed: "+err2.Error())
+	} else {
+		lines = append(lines, fmt.Sprintf("op rewrite %s => identical=%s", cdcHexB(stream2), cdcB01(bytes.Equal(stream, stream2))))
+	}
+	withJunk := append(append([]byte(nil), stream...), c.Junk...)
+	mode := int((c.RSeed + uint64(*nread)) % uint64(len(cdcReaderModes)))
+	*nread++
+	guard := &cdcGuard{}
+	o, omsg := guard.readVia(c.P, withJunk, mode, c.RSeed+uint64(k), bounds, pieces)
+	guard.close()
+	if o == 'h' {
+		c.Hung = true
+		return append(lines, fmt.Sprintf("op junk %d => hang", len(c.Junk))), false
+	}
+	if o == 'p' {
+		return append(lines, fmt.Sprintf("op panic ReadFrom of its own stream through reader %s: %s", cdcReaderModes[mode], omsg)), false
+	}
+	rel, err := cdcNewAnyIndex(c.P)
+	if err != nil {
+		return append(lines, "op panic constructor: "+err.Error()), false
+	}
+	defer rel.close()
+	rd := cdcWrapReader(mode, c.RSeed+uint64(k), withJunk, bounds, pieces)
+	var n int64
+	err = fmt.Errorf("rejected in the pre-flight")
+	if o == 'o' {
+		n, err = rel.readFrom(rd)
+	}
+	if err != nil {
+		return append(lines, fmt.Sprintf("op junk %d %s => err", len(c.Junk), cdcReaderModes[mode])), true
+	}
+	lines = append(lines, fmt.Sprintf("op junk %d %s => %d %d", len(c.Junk), cdcReaderModes[mode], n, len(withJunk)-rd.n))
+	tag := fmt.Sprintf("snap%d", k)
+	lines = append(lines, "op state "+tag+" src => "+strings.Join(src.content(), " "))
+	lines = append(lines, "op state "+tag+" reload => "+strings.Join(rel.content(), " "))
+	for i, q := range c.Queries {
+		lines = append(lines, fmt.Sprintf("op q %sq%d src => %s", tag, i, src.query(q)))
+		lines = append(lines, fmt.Sprintf("op q %sq%d reload => %s", tag, i, rel.query(q)))
+	}
+	return lines, true
+}
+
 // cdcCanonTokens is content() with map-order dependent parts already canonical (they are:
 // content() sorts maps), used to compare indexes with each other.
 func cdcCanonTokens(a *cdcAnyIndex) []string { return a.content() }
@@ -335,7 +522,7 @@ func init() {
 		GenF:  cdcGenCodec,
 		ExecF: cdcExecCodec,
 		LenF: func(c *cdcCodecCase) int {
-			if c.Hung {
+			if c.Hung || c.NoShrink {
 				return 0
 			}
 			return len(c.Cmds) + len(c.Cont) + len(c.Queries)
